@@ -191,6 +191,7 @@ class XMLTransformerPipeline(BaseTransformerPipeline):
         file_context: FileContext,
         results: list[Result] | None,
     ) -> ChangeSet | None:
+        file_path = file_context.file_path
         with TemporaryFile("w+") as output_file:
             # this will fail fast for files that are not XML
             try:
@@ -204,9 +205,13 @@ class XMLTransformerPipeline(BaseTransformerPipeline):
                 parser.setProperty(
                     handler.property_lexical_handler, transformer_instance
                 )
-                parser.parse(file_path := file_context.file_path)
+                parser.parse(file_path)
                 changes = transformer_instance.changes
                 output_file.seek(0)
+                # the diff below is computed against the UTF-8 text of the file
+                original_lines = (
+                    file_path.read_bytes().decode("utf-8").splitlines(keepends=True)
+                )
             except Exception:
                 file_context.add_failure(
                     file_path, reason := "Failed to parse XML file"
@@ -219,11 +224,6 @@ class XMLTransformerPipeline(BaseTransformerPipeline):
 
             new_lines = output_file.readlines()
             # TODO there's a failure potential here for very large files
-            original_lines = (
-                file_context.file_path.read_bytes()
-                .decode("utf-8")
-                .splitlines(keepends=True)
-            )
             diff = create_diff(
                 original_lines,
                 new_lines,
